@@ -674,7 +674,13 @@ class Unifier:
             if apply_equiv(rtotal, self.ctx) == apply_equiv(wtotal, self.ctx):
                 self.ok("count", w, r, f"{w.codec.split('.')[-1]} x {wtotal} scalars")
             else:
-                self.bad("count", w, r, f"item count differs: writer emits {wtotal} scalars of `{norm(w.value)}`, reader consumes {rtotal}")
+                def keyed(nd):
+                    if nd is None:
+                        return None
+                    k = copy.copy(nd)
+                    k._sa_construct = f"item count of {norm(w.value)}"
+                    return k
+                self.emit(False, "count", keyed(_n(w)), keyed(_n(r)), f"item count differs: writer emits {wtotal} scalars of `{norm(w.value)}`, reader consumes {rtotal}")
         if r.ph:
             self.bind[r.ph] = w.value
         if not r.used:
